@@ -31,7 +31,7 @@ std::string trig_of(int t){ t = ((t % 1000) + 1000) % 1000; if(t >= 300){ std::s
 std::string value_of(int opidx,int len,int fill){ if(fill >= 3){ std::string v = key_of(fill-3) + "#v" + std::to_string(opidx) + ":"; if(len > 0) v += wire::gen_bytes(opidx*7+1,(size_t)len,1); return v; } std::string v = "v" + std::to_string(opidx) + ":"; if(len <= 0) return len < 0 ? v : std::string(); v += wire::gen_bytes(opidx*7+1,(size_t)len,fill); if(fill == 0 && v.size() > 4) v[3] = '\0'; return v; }
 
 struct E4 : Engine {
-	bool fork_per_run(const J &) override { return true; }   // server threads + process-wide state: pristine process per run
+	bool fork_per_run(const J &) override { return true; } bool always_forks() override { return true; }   // server threads + process-wide state: pristine process per run
 
 	J generate(uint64_t seed,const std::string &prop,bool thorough) override {
 		simk::Rng r; r.seed(seed);
